@@ -289,7 +289,22 @@ def rule_dup(R):
              "PUBLISH carries DUP=1)", where=rb.span)
 
 
+def rule_replay(R):
+    """a retained PUBLISH is sent again *from its first byte* on the next connection, whatever state it was left in: an
+    entry that stays at Write{written: k} would have only its tail written to the new transport -- the broker never sees
+    the PUBLISH, and the client considers it sent"""
+    f = R.f
+    sites = outq.rearm_sites(f)
+    _, ccode = roles.session_connect(f)
+    how = [q.get("retained") for n, q in sites.items() if outq.calls_to(f, ccode, f.bodies[n]) and q.get("retained")]
+    R.ob("replay/retained-rearmed-whole", "always" in how,
+         "on a new connection every retained entry restarts at Write{written: 0}, unconditionally%s"
+         % ("" if "always" in how else (" (the re-arm is conditional on the entry's state)" if how else " (no re-arm reached from Session::connect)")),
+         where=ccode.span)
+
+
 def run(R):
+    R.rule("replay", rule_replay)
     R.rule("enq", rule_enq)
     R.rule("remove", rule_remove)
     R.rule("once", rule_once)
